@@ -247,6 +247,24 @@ def depth2_case(rng, fermi, with_conj=True, dagger=False):
     steps += [{"out": ["u1"], "op": "unfuse_all", "in": [last], "params": {}},
               {"out": ["u2"], "op": "unfuse_all", "in": ["u1"], "params": {}}]
     env = {"x": x}
+    twin_hist = rng.random() < 0.6
+    if twin_hist:
+        # call history: an array over the SAME index objects with a different sparsity pattern goes through the same
+        # two fuses first (its once-fused leg may have the same charge table but other sub-sector extents)
+        try:
+            secs = gen.valid_sectors(sym, x.indices, x.charge)
+            keep2 = [s_ for s_ in secs if rng.random() < 0.5] or secs[:1]
+            cls2, kw2 = gen.array_class(sym, fermi, static)
+            if fermi and x.oddpos:
+                kw2["oddpos"] = x.oddpos
+            xt = cls2(indices=x.indices, charge=x.charge,
+                      blocks={s_: gen.rand_block(rng, tuple(ix.chargemap[c] for ix, c in zip(x.indices, s_)), dtype)
+                              for s_ in keep2}, **kw2)
+            k1 = {} if fermi else {"mode": steps[0]["params"]["mode"]}
+            k2 = {} if fermi else {"mode": steps[1]["params"]["mode"]}
+            xt.fuse(tuple(g1), **k1).fuse(tuple(g2), **k2)
+        except Exception:  # noqa
+            twin_hist = False
     res, env2 = impl.run_prog(env, steps)
     orc = None
     if not all("ok" in r for r in res):
@@ -266,6 +284,26 @@ def depth2_case(rng, fermi, with_conj=True, dagger=False):
                        f"first fused axis still fused")
             elif u2.ndim != x.ndim or any(ix.subinfo is not None for ix in u2.indices):
                 orc = f"the second unfuse_all did not restore rank {x.ndim} with plain indices"
+        if orc is None:
+            # the same route with the fuse-info cache disabled (results must not depend on what was fused before)
+            import symmray.abelian_core as ac
+            old_ms = ac._fuseinfo_cache_maxsize
+            ac._fuseinfo_cache_maxsize = 0
+            try:
+                k1 = {} if fermi else {"mode": steps[0]["params"]["mode"]}
+                k2 = {} if fermi else {"mode": steps[1]["params"]["mode"]}
+                r_ = x.fuse(tuple(g1), **k1).fuse(tuple(g2), **k2)
+                if with_conj:
+                    r_ = r_.dagger() if dagger else r_.conj()
+                r_ = r_.unfuse_all().unfuse_all()
+                if not same_value(env2["u2"], r_):
+                    orc = ("fusing twice and unfusing twice with the fuse-info cache enabled"
+                           + (" (after an array over the same legs with another sparsity pattern went through the same fuses)" if twin_hist else "")
+                           + " differs from the result with the cache disabled")
+            except Exception as e:  # noqa
+                orc = f"cache-disabled reference route raised {type(e).__name__}: {e}"
+            finally:
+                ac._fuseinfo_cache_maxsize = old_ms
         if orc is None and not fermi and with_conj and not dagger:
             try:
                 ref = x.conj().fuse(tuple(g1)).fuse(tuple(g2)).unfuse_all().unfuse_all()
@@ -406,7 +444,20 @@ def gen_cases(seed, chunk, n, tier):
                 except Exception as e:  # noqa
                     other = None
                     orc = f"the other fuse strategy raised {type(e).__name__}: {e}"
-            if not fermi and other is not None:
+            if orc is None and all(groups) and rng.random() < 0.5:
+                # the function-style and autoray entry points must do what the method does (group order included)
+                import autoray as ar
+                import symmray as sr
+                gs_ = [tuple(g) for g in groups]
+                try:
+                    want_ = x.fuse(*gs_)
+                    for nm_, alt_ in (("symmray.fuse", sr.fuse(x, *gs_)), ("autoray.do('fuse')", ar.do("fuse", x, *gs_))):
+                        if not same_value(alt_, want_):
+                            orc = f"{nm_}(x, *groups) differs from x.fuse(*groups) for groups {groups}"
+                            break
+                except Exception as e:  # noqa
+                    orc = f"function-style fuse raised {type(e).__name__}: {e}"
+            if not fermi and other is not None and orc is None:
                 if not same_value(f, other):
                     orc = "insert and concat strategies give different results"
                 if orc is None and all(groups):
